@@ -238,6 +238,41 @@ def parse_harness_output(text):
     )
 
 
+
+def resolve_unwindset(work, ws, package, h, tdir, log_prefix):
+    """`unwindset="<regex on the pretty function name>=<n>;..."` of a harness -> CBMC loop labels.
+    The labels are mangled symbol names, so they are looked up on every run: the harness is compiled (`--only-codegen`),
+    `cbmc --show-loops` lists every loop of its goto binary with the pretty name of its function, and each regex must
+    match at least one loop (else the run is undecided: a renamed function must not silently lose its bound)."""
+    spec = []
+    for item in h["unwindset"].split(";"):
+        item = item.strip()
+        if item:
+            rx, _, n = item.rpartition("=")
+            spec.append((re.compile(rx), int(n)))
+    cmd = ["cargo", "kani"]
+    if package:
+        cmd += ["-p", package]
+    cmd += KANI_FLAGS + ["--target-dir", tdir, "--exact", "--harness", h["full"], "--only-codegen"]
+    log = os.path.join(work, log_prefix + "-codegen.log")
+    run_group(cmd, ws, base_env(work), timeout=1800, mem_gb=16, log_path=log)
+    suffix = str(len(h["name"])) + h["name"] + ".out"
+    outs = [f for f in glob.glob(os.path.join(tdir, "**", "*" + suffix), recursive=True) if not f.endswith(".symtab.out")]
+    if not outs:
+        return None, "no goto binary after --only-codegen: " + open(log, errors="replace").read()[-800:]
+    outs.sort(key=os.path.getmtime)
+    p = subprocess.run(["cbmc", "--show-loops", outs[-1]], capture_output=True, text=True, timeout=600)
+    loops = re.findall(r"^Loop (\S+):\n\s+file .*? function (.*)$", p.stdout, flags=re.M)
+    labels, missing = [], []
+    for rx, n in spec:
+        hit = [lab for lab, fn in loops if rx.search(fn)]
+        if not hit:
+            missing.append(rx.pattern)
+        labels += [f"{lab}:{n}" for lab in hit]
+    if missing:
+        return None, "unwindset pattern(s) match no loop: " + ", ".join(missing)
+    return labels, None
+
 def run_kani(work, ws, package, hs, jobs, mem_gb, extra=None, tag="k"):
     """One cargo-kani invocation for `hs` (all of one package).  Returns {full_name: parsed}."""
     tdir = os.path.join(work, "target-" + (package or "root") + "-" + tag)
@@ -254,6 +289,16 @@ def run_kani(work, ws, package, hs, jobs, mem_gb, extra=None, tag="k"):
         cmd += ["--harness", h["full"]]
     if extra:
         cmd += extra
+    if len(hs) == 1 and hs[0].get("unwindset"):
+        labels, err = resolve_unwindset(work, ws, package, hs[0], tdir, f"kani-{tag}-{package or 'root'}")
+        if labels is None:
+            r = dict(checks=[], verdict=None, time_s=None, oom=False, timeout=False, stubs=[], raw_tail=err, driver_rc=None,
+                     cmd=" ".join(cmd), peak_rss_gb=None, unwindset_error=err)
+            hs[0]["_tag"] = tag
+            return {hs[0]["full"]: r}, dict(rc=None, timed_out=False, wall=0.0, log=None, compile_error=False, unsupported=[],
+                                            log_tail=err)
+        cmd += ["--cbmc-args", "--unwindset", ",".join(labels)]
+        hs[0]["_unwindset_labels"] = labels
     log = os.path.join(work, f"kani-{tag}-{package or 'root'}.log")
     waves = (len(hs) + jobs - 1) // jobs
     peaks = {}
@@ -292,6 +337,8 @@ def kani_trace_values(work, ws, package, h, mem_gb=24):
         cmd += ["-p", package]
     cmd += KANI_FLAGS + ["--target-dir", tdir, "--exact", "--harness", h["full"], "--output-format", "old",
                          "--no-slice-formula", "--cbmc-args", "--trace"]
+    if h.get("_unwindset_labels"):
+        cmd += ["--unwindset", ",".join(h["_unwindset_labels"])]
     log = os.path.join(work, f"trace-{h['name']}.log")
     run_group(cmd, ws, base_env(work), timeout=h["cap"] * 3 + 600, mem_gb=mem_gb, log_path=log)
     txt = open(log, errors="replace").read()
